@@ -107,7 +107,7 @@ int muggle_path_basename(const char *path, char *ret, unsigned int size)
 
 	if ((unsigned int)len >= size)
 	{
-		len = size - 1;
+		return MUGGLE_ERR_INVALID_PARAM;
 	}
 	memcpy(ret, path + pos + 1, len);
 	ret[len] = '\0';
